@@ -4,6 +4,7 @@
 -/
 import Genshi.Model.SubstSpec
 import Genshi.Model.SubstRead
+import Genshi.Model.SubstFmt
 namespace Genshi.Subst
 open Genshi.Escape Genshi.Str
 
@@ -101,6 +102,49 @@ mutual
   def nodesOkB (m : Method) : List Node → Bool
     | [] => true
     | n :: ns => nodeOkB m n && nodesOkB m ns
+end
+
+/-! ### … and with markup that has tags, written by the template author in `Markup(fmt) % (…)`
+    (no whitespace stripping: `structure_preserved_markup_partial`) -/
+
+def nameNoPctB (n : Name) : Bool := !n.contains '%'
+
+def fpieceOkB (m : Method) : FPiece → Bool
+  | .open t attrs =>
+      tagOkB m t && nameNoPctB t && openOk m t &&
+      attrs.all fun p => attrNameOkB m p.1 && nameNoPctB p.1
+  | .close t => isNameB t && nameNoPctB t
+  | _ => true
+
+/-- the operand is a plain string of the context -/
+def strLitB : Atom → Bool
+  | .lit (.str _) => true
+  | _ => false
+
+def strOf : Atom → Option (List Char)
+  | .lit (.str s) => some s
+  | _ => none
+
+def sexprOkM (m : Method) : SExpr → Bool
+  | .fmtp ps as => ps.all (fpieceOkB m) && as.all strLitB && (fillEsc ps (as.filterMap strOf)).isSome
+  | e => sexprOkB m e
+
+mutual
+  def nodeOkM (m : Method) : Node → Bool
+    | .lit _ => true
+    | .site e => sexprOkM m e
+    | .el t attrs pa kids =>
+        tagOkB m t && attrs.all (fun p => attrNameOkB m p.1 && attrSpecOkB p.2) &&
+        (match pa with
+          | none => true
+          | some items => items.all fun p => attrNameOkB m p.1 && atomOkB p.2) &&
+        (openOk m t || kids.isEmpty) && nodesOkM m kids
+    | .loop e kids => vexprOkB e && nodesOkM m kids
+    | .bind a kids => atomOkB a && nodesOkM m kids
+    | .cond _ kids => nodesOkM m kids
+  def nodesOkM (m : Method) : List Node → Bool
+    | [] => true
+    | n :: ns => nodeOkM m n && nodesOkM m ns
 end
 
 end Genshi.Subst
